@@ -180,20 +180,24 @@ func (it *indexedMessageIterator) parseSummarySection() error {
 			// only for selected topics. Can't infer absence of a topic if there are no message indexes.
 			// NB: It would be nice if we had a more compact/direct representation of what channels
 			// are in a chunk.
-			selected := it.chunkIndexes[:0]
-			for _, idx := range it.chunkIndexes {
-				keep := len(idx.MessageIndexOffsets) == 0
-				for chanID := range idx.MessageIndexOffsets {
-					if it.channels.Get(chanID) != nil {
-						keep = true
-						break
+			// Without a topic selection every channel is selected, whether or not the summary repeats
+			// its record: nothing is dropped then (Info lists every chunk).
+			if len(it.topics) > 0 {
+				selected := it.chunkIndexes[:0]
+				for _, idx := range it.chunkIndexes {
+					keep := len(idx.MessageIndexOffsets) == 0
+					for chanID := range idx.MessageIndexOffsets {
+						if it.channels.Get(chanID) != nil {
+							keep = true
+							break
+						}
+					}
+					if keep {
+						selected = append(selected, idx)
 					}
 				}
-				if keep {
-					selected = append(selected, idx)
-				}
+				it.chunkIndexes = selected
 			}
-			it.chunkIndexes = selected
 			// sort chunk indexes in the order that they will need to be loaded, depending on the specified
 			// read order.
 			switch it.order {
